@@ -268,9 +268,9 @@ struct channel_converter_unsigned_integral_nondivisible<SrcChannelV, DstChannelV
     auto operator()(SrcChannelV src) const -> DstChannelV
     {
         using dest_t = typename base_channel_type<DstChannelV>::type;
-        return DstChannelV(
-            static_cast<dest_t>(src * unsigned_integral_max_value<DstChannelV>::value)
-            / unsigned_integral_max_value<SrcChannelV>::value);
+        return DstChannelV(static_cast<dest_t>(
+            (static_cast<uintmax_t>(src) * unsigned_integral_max_value<DstChannelV>::value)
+            / unsigned_integral_max_value<SrcChannelV>::value));
     }
 };
 
